@@ -260,11 +260,14 @@ closed:
 		err = clnt.err
 	}
 	clnt.Unlock()
-	for ; r != nil; r = r.next {
+	for r != nil {
+		/* once r is handed to its caller it may be recycled (ReqFree clears r.next) */
+		next := r.next
 		r.Err = err
 		if r.Done != nil {
 			r.Done <- r
 		}
+		r = next
 	}
 
 	clnts.Lock()
